@@ -486,4 +486,236 @@ Section Correct.
       + reflexivity.
       + constructor; [|constructor]. intros more leaf. cbn [fst snd eval]. symmetry. exact Hwt.
   Qed.
+
+  (* sequencing two segments read from the same sub-slice *)
+  Lemma post_seq t1 k1 k names1 names2 look sid n ns acc ss env w ty tb1 tr1 tb tr fuel b1 b2 :
+    post t1 k1 names1 look sid n ns acc ss env w ty tb1 tr1 fuel b1 ->
+    (forall c ss1 vals1 ws1 acc1 ns1,
+        c <= b1 -> get_slice ss1 sid = Ok (mkTS ty (mkS tb1 tr1)) ->
+        List.length ws1 = List.length vals1 -> ns <= ns1 ->
+        post (k1 (n + List.length vals1) ns1 (acc ++ acc1)) k names2 look sid (n + List.length vals1) ns1
+             (acc ++ acc1) ss1 (env ++ vals1) (w ++ ws1) ty tb tr (fuel - c) b2) ->
+    post t1 k (names1 ++ names2) look sid n ns acc ss env w ty tb tr fuel (b1 + b2).
+  Proof.
+    intros (c1 & ss1 & vals1 & ws1 & acc1 & ns1 & Hrun1 & Hc1 & Hg1 & Hfr1 & Hlen1 & Hns1 & Hnm1 & Hev1) H2.
+    destruct (H2 c1 ss1 vals1 ws1 acc1 ns1 Hc1 Hg1 Hlen1 Hns1)
+      as (c2 & ss2 & vals2 & ws2 & acc2 & ns2 & Hrun2 & Hc2 & Hg2 & Hfr2 & Hlen2 & Hns2 & Hnm2 & Hev2).
+    exists (c1 + c2), ss2, (vals1 ++ vals2), (ws1 ++ ws2), (acc1 ++ acc2), ns2.
+    split; [|split; [|split; [|split; [|split; [|split; [|split]]]]]].
+    - rewrite Hrun1, Hrun2. rewrite <- !app_assoc. rewrite app_length.
+      replace (n + List.length vals1 + List.length vals2) with (n + (List.length vals1 + List.length vals2)) by lia.
+      replace (fuel - c1 - c2) with (fuel - (c1 + c2)) by lia. reflexivity.
+    - lia.
+    - exact Hg2.
+    - intros j Hj Hlt. rewrite (Hfr2 j Hj) by lia. apply Hfr1; assumption.
+    - rewrite !app_length. lia.
+    - lia.
+    - rewrite map_app. congruence.
+    - apply Forall_app. split.
+      + eapply Forall_impl; [|exact Hev1]. intros p Hp more leaf. cbn beta in Hp.
+        rewrite <- (Hp (vals2 ++ more) leaf). rewrite <- !app_assoc. reflexivity.
+      + eapply Forall_impl; [|exact Hev2]. intros p Hp more leaf. cbn beta in Hp.
+        rewrite <- (Hp more leaf). rewrite <- !app_assoc. reflexivity.
+  Qed.
+
+  Lemma post_nil k look sid n ns acc ss env w ty tb tr fuel :
+    get_slice ss sid = Ok (mkTS ty (mkS tb tr)) ->
+    post (k n ns acc) k [] look sid n ns acc ss env w ty tb tr fuel 0.
+  Proof.
+    intros Hget. exists 0, ss, [], [], [], ns.
+    split; [|split; [|split; [|split; [|split; [|split; [|split]]]]]];
+      try (reflexivity || lia || assumption || constructor).
+    cbn [List.length]. rewrite !app_nil_r, Nat.add_0_r, Nat.sub_0_r. reflexivity.
+  Qed.
+
+  Lemma fields_correct : forall fs look bits refs,
+    forallb (fun p => wf_fty (snd p)) fs = true -> wt_fields (wt_type st d) look fs ->
+    enc_fields (enc_type st d) look fs = Ok (bits, refs) ->
+    forall sid n ns acc k ss env w ty tb tr fuel,
+      get_slice ss sid = Ok (mkTS ty (mkS (bits ++ tb) (refs ++ tr))) ->
+      List.length env = n -> List.length w = n -> sid < ns -> need_fields (need_type st d) fs <= fuel ->
+      post (compile_fields fs sid n ns acc k) k (map fst fs) look sid n ns acc ss env w ty tb tr fuel
+           (need_fields (need_type st d) fs).
+  Proof.
+    induction fs as [|[nm f] r IH];
+      intros look bits refs Hwf Hwt Henc sid n ns acc k ss env w ty tb tr fuel Hget Hn Hw Hsid Hfuel.
+    - cbn [enc_fields] in Henc. inversion Henc; subst bits refs.
+      cbn [compile_fields map need_fields fold_right]. apply post_nil. exact Hget.
+    - cbn [enc_fields] in Henc. cbn [forallb snd] in Hwf. apply andb_prop in Hwf. destruct Hwf as [Hwf1 Hwf2].
+      cbn [wt_fields] in Hwt. destruct Hwt as [Hwt1 Hwt2].
+      destruct (enc_field (enc_type st d) f (look nm)) as [[b1 r1]|e] eqn:H1; cbn [bind] in Henc; [|discriminate].
+      destruct (enc_fields (enc_type st d) look r) as [[b2 r2]|e] eqn:H2; cbn [bind] in Henc; [|discriminate].
+      inversion Henc; subst bits refs; clear Henc. rewrite <- !app_assoc in Hget.
+      cbn [compile_fields map fst]. change (nm :: map fst r) with ([nm] ++ map fst r).
+      change (need_fields (need_type st d) ((nm, f) :: r))
+        with (need_field (need_type st d) f + need_fields (need_type st d) r) in *.
+      eapply post_seq.
+      + eapply field_correct; try eassumption. lia.
+      + intros c ss1 vals1 ws1 acc1 ns1 Hc Hg1 Hlen1 Hns1.
+        eapply IH; try eassumption; try (rewrite app_length; lia); lia.
+  Qed.
+
+  Lemma list_beq_eq a : forall b, list_beq a b = true -> a = b.
+  Proof.
+    induction a as [|x a IH]; intros [|y b] H; cbn [list_beq] in H; try discriminate; [reflexivity|].
+    apply andb_prop in H. destruct H as [H1 H2]. apply eqb_prop in H1. subst y. f_equal. apply IH. exact H2.
+  Qed.
+
+  Lemma load_uint_raw bits tb r n : bits <> [] -> List.length bits = n ->
+    s_load_uint (mkS (bits ++ tb) r) n = Ok (Z.of_N (of_bits bits), mkS tb r).
+  Proof.
+    intros Hne Hlen. unfold s_load_uint, s_preload_uint. cbn [s_bits].
+    rewrite firstn_app_exact by exact Hlen. unfold ba2int. destruct bits as [|x bits]; [contradiction|].
+    cbn [bind]. rewrite s_skip_app by exact Hlen. reflexivity.
+  Qed.
+
+  (* a run of constant bits read at once: what the bit tests see is what was encoded *)
+  Lemma chunk_load c bits k sid ss env w ty tb tr fuel :
+    chunk_ok c bits = true -> get_slice ss sid = Ok (mkTS ty (mkS (bits ++ tb) tr)) -> 1 <= fuel ->
+    exists val,
+      run tbl fuel (DOp sid (chunk_op c) k) ss env w
+      = run tbl (fuel - 1) k (set_slice ss sid (mkTS ty (mkS tb tr))) (env ++ [val]) (w ++ [chunk_width c])
+      /\ bits_of_pv val (chunk_width c) = bits.
+  Proof.
+    unfold chunk_ok. intros Hok Hget Hfuel.
+    apply andb_prop in Hok. destruct Hok as [Hok Hview]. apply andb_prop in Hok. destruct Hok as [Hw1 Hlen].
+    apply list_beq_eq in Hview. apply Nat.leb_le in Hw1. apply Nat.eqb_eq in Hlen.
+    destruct c as [n|n|k0]; cbn [chunk_op chunk_width chunk_view] in *.
+    - exists (PBits bits). split; [|reflexivity].
+      rewrite (run_prim tbl fuel sid (OBits n) k ss env w _ (PBits bits) (mkS tb tr) Hfuel Hget).
+      + reflexivity.
+      + cbn [prim_load ts_s]. subst n. rewrite load_bits_app. reflexivity.
+    - exists (PInt (Z.of_N (of_bits bits))). split.
+      + rewrite (run_prim tbl fuel sid (OUint n) k ss env w _ (PInt (Z.of_N (of_bits bits))) (mkS tb tr) Hfuel Hget).
+        * reflexivity.
+        * cbn [prim_load ts_s]. rewrite load_uint_raw; [reflexivity| |exact Hlen].
+          intros ->. cbn in Hlen. lia.
+      + cbn [bits_of_pv]. rewrite N2Z.id. exact Hview.
+    - exists (PBytes (bits_to_bytes bits)). split; [|exact Hview].
+      rewrite (run_prim tbl fuel sid (OBytes k0) k ss env w _ (PBytes (bits_to_bytes bits)) (mkS tb tr) Hfuel Hget).
+      + reflexivity.
+      + cbn [prim_load ts_s]. unfold s_load_bytes, s_preload_bytes.
+        rewrite s_skip_app by lia. cbn [bind s_bits]. rewrite firstn_app_exact by lia. reflexivity.
+  Qed.
+
+  Lemma check_bits_ok : forall bits pre v i t ss env w fuel,
+    bits_of_pv (nth v env PNone) (nth v w 1) = pre ++ bits -> List.length pre = i ->
+    List.length bits <= fuel ->
+    run tbl fuel (check_bits v i bits t) ss env w = run tbl (fuel - List.length bits) t ss env w.
+  Proof.
+    induction bits as [|b r IH]; intros pre v i t ss env w fuel Hbits Hpre Hfuel.
+    - cbn [check_bits List.length]. rewrite Nat.sub_0_r. reflexivity.
+    - cbn [List.length] in *.
+      assert (Hnth : nth i (bits_of_pv (nth v env PNone) (nth v w 1)) false = b).
+      { rewrite Hbits. subst i. apply nth_middle. }
+      assert (Hrec : run tbl (fuel - 1) (check_bits v (S i) r t) ss env w
+                     = run tbl (fuel - S (List.length r)) t ss env w).
+      { rewrite (IH (pre ++ [b]) v (S i) t ss env w (fuel - 1)).
+        - f_equal. lia.
+        - rewrite <- app_assoc. exact Hbits.
+        - rewrite app_length. cbn. lia.
+        - lia. }
+      cbn [check_bits]. destruct b.
+      + rewrite (run_if tbl fuel v i _ _ ss env w true) by (lia || exact Hnth). exact Hrec.
+      + rewrite (run_if tbl fuel v i _ _ ss env w false) by (lia || exact Hnth). exact Hrec.
+  Qed.
+
+  Definition compile_item (it : item) (sid n ns : nat) (acc : list (string * dexpr)) (k1 : kont) : dtree :=
+    match it with
+    | INamed nm f => compile_field f nm sid n ns acc k1
+    | IGroup fs => DOp sid (ORef ns) (compile_fields fs ns (S n) (S ns) acc k1)
+    | IConst c bits => DOp sid (chunk_op c) (check_bits n 0 bits (k1 (S n) ns acc))
+    end.
+
+  Lemma compile_items_cons it r sid n ns acc k :
+    compile_items (it :: r) sid n ns acc k
+    = compile_item it sid n ns acc (fun n' ns' acc' => compile_items r sid n' ns' acc' k).
+  Proof. destruct it; reflexivity. Qed.
+
+  Lemma item_correct it look bits refs :
+    wf_item it = true -> wt_item (wt_type st d) look it ->
+    enc_item (enc_type st d) look it = Ok (bits, refs) ->
+    forall sid n ns acc k ss env w ty tb tr fuel,
+      get_slice ss sid = Ok (mkTS ty (mkS (bits ++ tb) (refs ++ tr))) ->
+      List.length env = n -> List.length w = n -> sid < ns -> need_item (need_type st d) it <= fuel ->
+      post (compile_item it sid n ns acc k) k (item_names it) look sid n ns acc ss env w ty tb tr fuel
+           (need_item (need_type st d) it).
+  Proof.
+    intros Hwf Hwt Henc sid n ns acc k ss env w ty tb tr fuel Hget Hn Hw Hsid Hfuel.
+    destruct it as [nm f|fs|c cbits]; cbn [wf_item wt_item enc_item compile_item item_names need_item] in *.
+    - eapply field_correct; eassumption.
+    - destruct (enc_fields (enc_type st d) look fs) as [[b r]|e] eqn:Hinner; cbn [bind] in Henc; [|discriminate].
+      inversion Henc; subst bits refs; clear Henc.
+      set (ssA := set_slice (set_slice ss sid (mkTS ty (mkS tb tr))) ns (mkTS ty_ordinary (mkS b r))).
+      destruct (fields_correct fs look b r Hwf Hwt Hinner ns (S n) (S ns) acc k ssA
+                  (env ++ [PCell (Cell ty_ordinary b r)]) (w ++ [1]) ty_ordinary [] [] (fuel - 1))
+        as (c & ss' & vals & ws & acc' & ns' & Hrun & Hc & Hg & Hfr & Hlen & Hns & Hnames & Hev).
+      { rewrite !app_nil_r. apply get_set_same. }
+      { rewrite app_length. cbn. lia. }
+      { rewrite app_length. cbn. lia. }
+      { lia. }
+      { lia. }
+      exists (1 + c), ss', (PCell (Cell ty_ordinary b r) :: vals), (1 :: ws), acc', ns'.
+      split; [|split; [|split; [|split; [|split; [|split; [|split]]]]]].
+      + rewrite (run_ref tbl fuel sid ns _ ss env w _ (Cell ty_ordinary b r) (mkS tb tr))
+          by (lia || eassumption || reflexivity).
+        cbn [ts_ty cell_slice]. fold ssA. rewrite Hrun. rewrite <- !app_assoc. cbn [List.length app].
+        replace (S n + List.length vals) with (n + S (List.length vals)) by lia.
+        replace (fuel - 1 - c) with (fuel - (1 + c)) by lia. reflexivity.
+      + lia.
+      + rewrite Hfr by lia. unfold ssA. rewrite get_set_other by lia. apply get_set_same.
+      + intros j Hj Hlt. rewrite Hfr by lia. unfold ssA. rewrite get_set_other by lia.
+        apply get_set_other. exact Hj.
+      + cbn [List.length]. lia.
+      + lia.
+      + exact Hnames.
+      + eapply Forall_impl; [|exact Hev]. intros p Hp more leaf. cbn beta in Hp.
+        rewrite <- (Hp more leaf). rewrite <- !app_assoc. reflexivity.
+    - cbn [ok_bits] in Henc. inversion Henc; subst bits refs; clear Henc. cbn [app] in Hget.
+      destruct (chunk_load c cbits (check_bits n 0 cbits (k (S n) ns acc)) sid ss env w ty tb tr fuel Hwf Hget)
+        as (val & Hrun & Hview); [lia|].
+      exists (S (List.length cbits)), (set_slice ss sid (mkTS ty (mkS tb tr))), [val], [chunk_width c], [], ns.
+      split; [|split; [|split; [|split; [|split; [|split; [|split]]]]]].
+      + rewrite Hrun. rewrite (check_bits_ok cbits [] n 0 _ _ (env ++ [val]) (w ++ [chunk_width c]) (fuel - 1)).
+        * cbn [List.length]. rewrite app_nil_r. replace (n + 1) with (S n) by lia.
+          replace (fuel - 1 - List.length cbits) with (fuel - S (List.length cbits)) by lia. reflexivity.
+        * rewrite <- Hn at 1. rewrite <- Hw. rewrite !nth_middle. exact Hview.
+        * reflexivity.
+        * lia.
+      + lia.
+      + apply get_set_same.
+      + intros j Hj _. apply get_set_other. exact Hj.
+      + reflexivity.
+      + lia.
+      + reflexivity.
+      + constructor.
+  Qed.
+
+  Lemma items_correct : forall its look bits refs,
+    forallb wf_item its = true -> wt_items (wt_type st d) look its ->
+    enc_items (enc_type st d) look its = Ok (bits, refs) ->
+    forall sid n ns acc k ss env w ty tb tr fuel,
+      get_slice ss sid = Ok (mkTS ty (mkS (bits ++ tb) (refs ++ tr))) ->
+      List.length env = n -> List.length w = n -> sid < ns -> need_items (need_type st d) its <= fuel ->
+      post (compile_items its sid n ns acc k) k (items_names its) look sid n ns acc ss env w ty tb tr fuel
+           (need_items (need_type st d) its).
+  Proof.
+    induction its as [|it r IH];
+      intros look bits refs Hwf Hwt Henc sid n ns acc k ss env w ty tb tr fuel Hget Hn Hw Hsid Hfuel.
+    - cbn [enc_items] in Henc. inversion Henc; subst bits refs.
+      cbn [compile_items items_names flat_map need_items fold_right]. apply post_nil. exact Hget.
+    - cbn [enc_items] in Henc. cbn [forallb] in Hwf. apply andb_prop in Hwf. destruct Hwf as [Hwf1 Hwf2].
+      cbn [wt_items] in Hwt. destruct Hwt as [Hwt1 Hwt2].
+      destruct (enc_item (enc_type st d) look it) as [[b1 r1]|e] eqn:H1; cbn [bind] in Henc; [|discriminate].
+      destruct (enc_items (enc_type st d) look r) as [[b2 r2]|e] eqn:H2; cbn [bind] in Henc; [|discriminate].
+      inversion Henc; subst bits refs; clear Henc. rewrite <- !app_assoc in Hget.
+      rewrite compile_items_cons.
+      change (items_names (it :: r)) with (item_names it ++ items_names r).
+      change (need_items (need_type st d) (it :: r))
+        with (need_item (need_type st d) it + need_items (need_type st d) r) in *.
+      eapply post_seq.
+      + eapply item_correct; try eassumption. lia.
+      + intros c ss1 vals1 ws1 acc1 ns1 Hc Hg1 Hlen1 Hns1.
+        eapply IH; try eassumption; try (rewrite app_length; lia); lia.
+  Qed.
 End Correct.
